@@ -133,8 +133,14 @@ class Report:
         self.rules.append(r)
         return r
 
-    def finding(self, rr, func, construct, fact, file, line, msg, path=None):
+    def finding(self, rr, func, construct, fact, file, line, msg, path=None,
+                alt=None):
+        """alt: a second identification of the same defect (e.g. by the
+        origin of a late exception instead of the statement it passes
+        through); a known-findings / reviewed-safe entry may be keyed by
+        either"""
         f = Finding(rr.rule, func, construct, fact, file, line, msg, path)
+        f.alt_key = '|'.join([rr.rule, func, alt, fact]) if alt else None
         # de-duplicate by key
         for g in rr.findings:
             if g.key == f.key:
@@ -176,6 +182,12 @@ class Report:
                     reviewed_hits.append(f)
                 elif loose_key(f.key) in kloose:
                     f.matched_key = kloose[loose_key(f.key)]
+                    known_hits.append(f)
+                elif getattr(f, 'alt_key', None) in rmap:
+                    f.matched_key = f.alt_key
+                    reviewed_hits.append(f)
+                elif getattr(f, 'alt_key', None) in kmap:
+                    f.matched_key = f.alt_key
                     known_hits.append(f)
                 else:
                     violations.append(f)
@@ -287,3 +299,24 @@ class Report:
         if self.analysis_errors:
             return 2, violations, known_hits
         return 0, violations, known_hits
+
+
+def unlisted_findings(rep):
+    """findings of a finished or unfinished Report that are neither known
+    findings nor reviewed-safe entries - the same matching as finish()
+    (exact key, loosened key, alternate key)"""
+    known = _load_json(KNOWN_PATH, {'findings': []})
+    reviewed = _load_json(REVIEWED_PATH, {'entries': []})
+    keys = [e['key'] for e in known.get('findings', [])
+            if e.get('property') == rep.prop] + \
+        [e['key'] for e in reviewed.get('entries', [])
+         if e.get('property') == rep.prop]
+    ok = set(keys) | {loose_key(k) for k in keys}
+    out = []
+    for rr in rep.rules:
+        for f in rr.findings:
+            if f.key in ok or loose_key(f.key) in ok or \
+                    getattr(f, 'alt_key', None) in ok:
+                continue
+            out.append(f)
+    return out
